@@ -273,6 +273,12 @@ def run_impl(c):
             a[k] = list(vs)
         try:
             text = helpers._jsonify(a)
+            # the stored text is decoded afresh each time: editing a decoded mapping in place does not reach the next decode
+            first = helpers._unjsonify(text, isattributes=True)
+            for v in first._d.values():
+                if isinstance(v, list):
+                    v.append("edited in place")
+            first["added key"] = ["x"]
             b = helpers._unjsonify(text, isattributes=True)
             ok = isinstance(text, str) and all(isinstance(k, str) and isinstance(v, list) and all(isinstance(x, str) for x in v)
                                                for k, v in b._d.items())
@@ -282,6 +288,10 @@ def run_impl(c):
             return {"text": "<raised>", "back": ["err", L.err_class(ex)]}
     if c["k"] == "jtext":
         try:
+            first = helpers._unjsonify(c["t"], isattributes=True)
+            for v in first._d.values():
+                if isinstance(v, list):
+                    v.append("edited in place")
             b = helpers._unjsonify(c["t"], isattributes=True)
             ok = all(isinstance(k, str) and isinstance(v, list) and all(isinstance(x, str) for x in v) for k, v in b._d.items())
             return {"back": ["ok", [[k, list(v)] for k, v in b._d.items()]] if ok else ["err", "Other"]}
